@@ -242,6 +242,35 @@ impl Ctx {
         }
     }
 
+    /// Book-keeping for engines that run their cases themselves (e.g. on worker threads).
+    pub fn record_ok(&mut self, desc: &str, nontrivial: bool, outcome: &str) {
+        if nontrivial {
+            self.nontrivial += 1;
+        }
+        *self.outcomes.entry(outcome.to_string()).or_insert(0) += 1;
+        let e = self.evaluations;
+        if self.samples.len() < self.max_samples && (e <= 3 || e.is_power_of_two()) {
+            self.samples.push(json!({"case": desc, "outcome": outcome}));
+        }
+    }
+
+    pub fn record_violation(&mut self, desc: &str, what: &str, stable: bool) {
+        if !stable {
+            self.machinery_errors.push(format!("case {desc} is not deterministic: '{what}' did not reproduce"));
+        }
+        let v = json!({"desc": desc, "what": what, "stable": stable});
+        {
+            let mut out = std::io::stdout().lock();
+            let _ = writeln!(out, "VIOL {v}");
+            let _ = out.flush();
+        }
+        self.viol_count += 1;
+        if self.violations.len() < self.max_violations {
+            self.violations.push(v);
+        }
+        *self.outcomes.entry("VIOLATION".into()).or_insert(0) += 1;
+    }
+
     /// true once so many violations were reported that further exploration is pointless
     pub fn too_many_violations(&mut self) -> bool {
         if self.viol_count >= self.max_violations as u64 {
